@@ -30,13 +30,58 @@ def _s(cmd, arg=None, ids=(), thr="main"):
     return {"cmd": cmd, "arg": arg or _a(), "ids": list(ids), "thr": thr}
 
 
+def stubbed(steps):
+    """TLC-generated scenarios use stub processes only: a real pipeline followed by fg would
+    wait for it.  Real pipelines are exercised by real_scenarios()."""
+    out = []
+    for st in steps:
+        if st["cmd"] == "startreal":
+            if st["arg"]["kind"] == "alias":
+                continue
+            st = dict(st, cmd="start", arg={"kind": "bg", "n": 0})
+        out.append(st)
+    return out
+
+
 PINNED = [
     [_s("start", _a("bg")), _s("start", _a("fg")), _s("disown", ids=[1, 4])],
+    [_s("startreal", _a("proc")), _s("startreal", _a("proc|alias")), _s("startreal", _a("alias|proc")), _s("startreal", _a("alias")), _s("jobs"),
+     _s("exit", _a("num", 2)), _s("jobs", thr="alias"), _s("startreal", _a("proc|proc")), _s("jobs")],
+    [_s("startfaulty", _a("bg")), _s("start", _a("bg")), _s("jobs"), _s("fg", _a("num", 1)), _s("startfaulty", _a("bg")), _s("jobs")],
     [_s("start", _a("bg")), _s("start", _a("bg")), _s("start", _a("bg")), _s("exit", _a("num", 2)), _s("start", _a("bg")), _s("jobs")],
     [_s("start", _a("bg")), _s("start", _a("bg")), _s("exit", _a("num", 2)), _s("fg", _a("minus")), _s("jobs", thr="alias")],
     [_s("start", _a("bg")), _s("start", _a("bg")), _s("start", _a("bg")), _s("bg", _a("num", 1), thr="alias"), _s("fg", _a("minus")), _s("exit", _a("num", 3)),
      _s("exit", _a("num", 1)), _s("jobs"), _s("start", _a("fg")), _s("jobs", thr="alias")],
 ]
+
+
+def real_scenarios(tier, rng):
+    """Real background pipelines through the real subprocess machinery (no fg/bg: no terminal)."""
+    kinds = ["proc", "proc|proc", "proc|alias", "alias|proc", "alias"]
+    scns = []
+    n = 24 if tier == "quick" else 200
+    for k in range(n):
+        steps = []
+        live = []
+        for i in range(rng.randint(3, 7)):
+            r = rng.random()
+            if r < 0.45 and len(live) < 3:
+                kind = kinds[(k + i) % 5] if i < 2 else rng.choice(kinds)
+                steps.append(_s("startreal", _a(kind)))
+                if kind != "alias":
+                    live.append(None)
+            elif r < 0.55 and len(live) < 3:
+                steps.append(_s("startfaulty", _a("bg")))
+                live.append(None)
+            elif r < 0.7:
+                steps.append(_s("jobs", thr=rng.choice(["main", "alias"])))
+            elif r < 0.85:
+                steps.append(_s("exit", _a("num", rng.randint(1, 3))))
+            else:
+                steps.append(_s("disown", ids=[rng.randint(1, 3)], thr=rng.choice(["main", "alias"])))
+        steps.append(_s("jobs"))
+        scns.append({"maxjobs": 4, "steps": steps})
+    return scns
 
 
 def run(tier, seed, replay=None):
@@ -64,18 +109,21 @@ def run(tier, seed, replay=None):
         covered = set()
         for init, steps in tours:
             covered.update(steps)
-            scns.append({"maxjobs": 3, "steps": [edges[i][1][0] for i in steps]})
+            scns.append({"maxjobs": 3, "steps": stubbed([edges[i][1][0] for i in steps])})
             srcs.append("tour")
         res.coverage["graph_edges"] = len(edges)
         res.coverage["graph_states"] = len(states)
         res.coverage["edges_in_tours"] = len(covered)
         behs, _ = tlc.simulate_behaviours(SPEC, big_cfg, depth=16 if tier == "quick" else 24, num=300 if tier == "quick" else 5000, seed=seed + 1, timeout=600)
         for b in behs:
-            scns.append({"maxjobs": 4, "steps": [s["act"] for s in b[1:]]})
+            scns.append({"maxjobs": 4, "steps": stubbed([s["act"] for s in b[1:]])})
             srcs.append("tlc-sim")
         for p in PINNED:
             scns.append({"maxjobs": 4, "steps": p})
             srcs.append("pinned")
+        for sc in real_scenarios(tier, rng):
+            scns.append(sc)
+            srcs.append("real-pipelines")
     traces = pool.run("jobs", scns, hooks=False)
     bad_workers = [t for t in traces if "steps" not in t]
     if bad_workers:
